@@ -6,8 +6,11 @@ bad=0; for p in C01 C02 C03 C04 C05 C07 C08 C09 C10 C11 C12 C13 C14 C15 C16 C17 
 bad2=0; for p in C01 C02 C03 C04 C05 C07 C08 C09 C10 C11 C12 C13 C14 C15 C16 C17 C18 C19 C20; do VERIF_EVIDENCE_DIR=/tmp/ev_th ./check $p --tier thorough > /tmp/outth_$p.txt 2>&1 || { echo "THOROUGH $p FAILED"; bad2=1; }; done
 echo "checks on the tree: quick $([ $bad = 0 ] && echo all exit 0 || echo SOME FAILED); thorough $([ $bad2 = 0 ] && echo all exit 0 || echo SOME FAILED)"
 ./selftest 2>&1 | grep -v "^ok" | tail -6
-/venv/bin/python tools/twins.py twins/* > /tmp/reg_twins1.txt 2>&1; echo "twins : $(grep -c '^ok' /tmp/reg_twins1.txt) silent; alarms: $(grep '^ALARM' /tmp/reg_twins1.txt | sed 's#.*/twins/##;s#.diff##' | tr '\n' ' ')"
-/venv/bin/python tools/twins.py twins2/* > /tmp/reg_twins2.txt 2>&1; echo "twins2: $(grep -c '^ok' /tmp/reg_twins2.txt) silent; alarms: $(grep '^ALARM' /tmp/reg_twins2.txt | sed 's#.*/twins2/##;s#.diff##' | tr '\n' ' ')"
+/venv/bin/python tools/twins.py twins/* > /tmp/reg_twins1.txt 2>&1; echo "twins : $(grep -c '^ok' /tmp/reg_twins1.txt) silent; alarms: $(grep '^ALARM\|^PATCH' /tmp/reg_twins1.txt | sed 's#.*/twins/##;s#.diff##' | tr '\n' ' ')"
+/venv/bin/python tools/twins.py twins2/* > /tmp/reg_twins2.txt 2>&1; echo "twins2: $(grep -c '^ok' /tmp/reg_twins2.txt) silent; alarms: $(grep '^ALARM\|^PATCH' /tmp/reg_twins2.txt | sed 's#.*/twins2/##;s#.diff##' | tr '\n' ' ')"
+/venv/bin/python tools/twins.py twins3/* > /tmp/reg_twins3.txt 2>&1; echo "twins3: $(grep -c '^ok' /tmp/reg_twins3.txt) silent; alarms: $(grep '^ALARM\|^PATCH' /tmp/reg_twins3.txt | sed 's#.*/twins3/##;s#.diff##' | tr '\n' ' ')"
+/venv/bin/python tools/twins.py twins4/* > /tmp/reg_twins4.txt 2>&1; echo "twins4: $(grep -c '^ok' /tmp/reg_twins4.txt) silent; alarms: $(grep '^ALARM\|^PATCH' /tmp/reg_twins4.txt | sed 's#.*/twins4/##;s#.diff##' | tr '\n' ' ')"
+for k in 1 2 3 4; do d=twins; [ $k -gt 1 ] && d=twins$k; /venv/bin/python tools/twins_status.py /verif/$d /tmp/reg_twins$k.txt > /dev/null; done
 rm -f /tmp/rr_*.log
 ls seeded | grep -v "neutralised\|json" | xargs -P 8 -I{} sh -c 'p=$(echo {} | cut -c1-3); /venv/bin/python tools/seeded.py $p {} --scratch --no-tests --src=/verif/seeded/{} > /tmp/rr_{}.log 2>&1'
 miss=""; for f in /tmp/rr_*.log; do n=$(basename $f .log | sed s/rr_//); l=$(tail -1 $f); case "$l" in *"firing: {}"*|"") miss="$miss $n";; esac; done
